@@ -167,7 +167,7 @@ func (g *Gen) contractForFn(fn *ssa.Function) (*Contract, *calleeInfo) {
 	if ct == nil && (info.pkg == nil || !g.repoPkgs[info.pkg.Path()]) {
 		// no assumed contract for this external function: total, results unknown, and everything
 		// reachable through its pointer / slice / interface arguments may have been modified
-		ct = &Contract{Key: fn.String(), Trusted: true, Opaque: true, Allocates: true, Loops: map[int]*LoopSpec{}, HavocArgs: true}
+		ct = &Contract{Key: fn.String(), Trusted: true, Opaque: true, Allocates: true, Loops: map[int]*LoopSpec{}, HavocArgs: !pureExternal(fn)}
 		g.cs.Funcs[info.key] = ct
 	}
 	if ct != nil {
@@ -1067,4 +1067,34 @@ func (fx *fnExec) havocReachableArgs(st *state, in ssa.Instruction, args []val) 
 			}
 		}
 	}
+}
+
+// pureExternal: standard-library functions known to write nothing reachable from their arguments
+// (package-level functions of strings, bytes, strconv, unicode, unicode/utf8, errors, path; the fmt
+// formatting functions that return a value; size queries of bufio.Reader). Assumed, listed in DESIGN.md.
+func pureExternal(fn *ssa.Function) bool {
+	if fn == nil || fn.Pkg == nil {
+		// methods of external types have Pkg set too; a nil Pkg is a synthetic wrapper
+		if fn != nil {
+			switch fn.String() {
+			case "(*bufio.Reader).Buffered", "(*bufio.Reader).Size":
+				return true
+			}
+		}
+		return false
+	}
+	switch fn.String() {
+	case "(*bufio.Reader).Buffered", "(*bufio.Reader).Size":
+		return true
+	case "fmt.Sprintf", "fmt.Sprint", "fmt.Sprintln", "fmt.Errorf":
+		return true
+	}
+	if fn.Signature.Recv() != nil {
+		return false
+	}
+	switch fn.Pkg.Pkg.Path() {
+	case "strings", "bytes", "strconv", "unicode", "unicode/utf8", "errors", "path":
+		return !strings.HasPrefix(fn.Name(), "Append")
+	}
+	return false
 }
